@@ -62,6 +62,7 @@ class Ctx:
         self.symbols = {}  # name -> z3 const for witness extraction
         self._feas_cache = {}
         self.infeasible = False
+        self.in_quant = 0
 
     # ---------------------------------------------------------------- symbols
     def sym(self, name, sort="real"):
@@ -90,7 +91,7 @@ class Ctx:
 
     def fact(self, f, src=""):
         """ground axiom instance; silently dropped when it mentions a bound variable"""
-        if f is True:
+        if f is True or self.in_quant:
             return
         if f is False:
             raise RuntimeError(f"false fact from {src}")
@@ -210,7 +211,11 @@ class Ctx:
     # forall helper: goals are skolemised by callers; hypotheses use this
     def forall(self, sorts, body_fn, patterns=None):
         vs = [z3.Const(f"q!{self.ordinal('q')}_{k}", {"int": T.I, "real": T.R}[s]) for k, s in enumerate(sorts)]
-        body = body_fn(*vs)
+        self.in_quant += 1
+        try:
+            body = body_fn(*vs)
+        finally:
+            self.in_quant -= 1
         if body is True:
             return True
         if patterns:
@@ -232,6 +237,19 @@ def discharge(ob, timeout_ms=10000):
     r = s.check()
     ob.time_s = time.time() - t0
     ob.backend = "z3-" + z3.get_version_string()
+    if r == z3.unknown:
+        # second attempt without the non-linear ground facts (dropping hypotheses is sound for proving)
+        lin = [h for h in ob.hyps if not _nonlinear(h)]
+        if len(lin) < len(ob.hyps):
+            s2 = z3.Solver()
+            s2.set("timeout", int(timeout_ms))
+            for h in lin:
+                s2.add(h)
+            s2.add(z3.Not(ob.goal))
+            if s2.check() == z3.unsat:
+                r = z3.unsat
+                ob.note = (ob.note + " " if ob.note else "") + "[proved from the linear hypotheses only]"
+            ob.time_s = time.time() - t0
     if r == z3.unsat:
         ob.status = "proved"
     elif r == z3.sat:
@@ -245,6 +263,34 @@ def discharge(ob, timeout_ms=10000):
         ob.status = "unknown"
         ob.note = (ob.note + " " if ob.note else "") + f"z3: {s.reason_unknown()}"
     return ob
+
+
+def _nonlinear(f):
+    """does the formula contain a product/division/power of two non-numeral terms?"""
+    seen = set()
+    stack = [f]
+    while stack:
+        e = stack.pop()
+        if e.get_id() in seen:
+            continue
+        seen.add(e.get_id())
+        if z3.is_quantifier(e):
+            stack.append(e.body())
+            continue
+        if z3.is_app(e):
+            k = e.decl().kind()
+            if k == z3.Z3_OP_MUL:
+                nn = [c for c in e.children() if not (z3.is_rational_value(c) or z3.is_int_value(c))]
+                if len(nn) >= 2:
+                    return True
+            elif k in (z3.Z3_OP_DIV, z3.Z3_OP_IDIV, z3.Z3_OP_MOD):
+                d = e.children()[1]
+                if not (z3.is_rational_value(d) or z3.is_int_value(d)):
+                    return True
+            elif k == z3.Z3_OP_POWER:
+                return True
+            stack.extend(e.children())
+    return False
 
 
 def discharge_smt2(ob, solver_cmd, timeout_s=20):
